@@ -145,3 +145,18 @@ func VerifAddUserHint(user string, nonce []byte) []byte {
 	c := &aeadBlockCipher{ctx: BlockContext{UserName: user}}
 	return c.addUserHintToNonce(append([]byte(nil), nonce...))
 }
+
+// VerifPeekCipherCache returns the cache entry stored for the password, without a lookup.
+func VerifPeekCipherCache(password string) *VerifCacheEntry {
+	c, ok := blockCipherCache.Load(password)
+	if !ok {
+		return nil
+	}
+	v := verifEntry(c.(*cachedCiphers))
+	return &v
+}
+
+// VerifNewStatelessDecryptor is NewStatelessDecryptor (exported here only for symmetry).
+func VerifNewStatelessDecryptor(password []byte) (*StatelessDecryptor, error) {
+	return NewStatelessDecryptor(password)
+}
